@@ -121,6 +121,46 @@ CLAIMS = {
     note=("Three defects repaired (flat list OR-ed; page window with nulls; nullable/object comparisons raising). Known "
           "findings: partition atoms ignored inside OR groups (KF-C13-1); consequence of KF-C05-1 (KF-C13-2)."),
     technique="TLA+ spec + TLC model checking of the transcribed row filter; TLC-generated verdict tables replayed end to end"),
+ "C01": dict(
+    level="model_checking",
+    text=("spec/ColumnWriter.tla follows iter_dataframe -> make_row_group -> write_column page by page for one symbolic "
+          "column (dtype class attributes, row count, null pattern, value pattern) under every option tuple "
+          "(nullability mode, page budget, page version, row-group size, statistics mode) and states the format/round-"
+          "trip contract (row groups tile the frame, pages tile the chunk, null counts exact, statistics exact, reject-"
+          "or-preserve, the cell table a reader must reproduce). TLC checks the invariants over the whole product and "
+          "exports every case; each is concretised (harness/concretise.py), written with the real writer under exactly "
+          "that page budget/version and read back with the library: names, row count, every cell and its missingness, "
+          "dtype / categories, and the neighbouring column."),
+    design_ref="DESIGN.md section 5 C01, section 10",
+    note=("TLA+ decides layout, counts, statistics and the expected cell table; rendering abstract values into pandas "
+          "values (concretise.py) is trusted. Quick: 11 core classes x rows {0,1,2,3,8,9} (23.8k cases); thorough: all 28 "
+          "classes incl. rows 17 (approx. 400k cases). Codecs, schemes and multi-column frames are covered by C02's sweep and "
+          "the Dataset-based checks, not by this product."),
+    technique="TLA+ spec as layout/cell oracle + TLC enumeration of the input lattice; spec->code replay"),
+ "C02": dict(
+    level="model_checking",
+    text=("Same specification and cases as C01, judged by an independent implementation: every written file is parsed by "
+          "harness/pqspec (written from the format documents and parquet.thrift only) in strict mode - magic, footer "
+          "length, every Thrift field id and wire type against the IDL, offsets, sizes, value/null counts, encodings, "
+          "page tiling - its layout is compared with the specification's pages/row groups, and its decoded cells (NULL "
+          "vs in-band NaN/NaT per nullability mode) with the specification's cell table; a sweep over 7 codec settings x "
+          "{simple, hive, drill} x {v1, v2} validates every file of the dataset incl. _metadata and _common_metadata."),
+    design_ref="DESIGN.md section 5 C02, section 10",
+    note=("Trusted: pqspec and cramjam/zlib. Known finding KF-C02-1 (empty lists written with element type 0; native "
+          "code). Statistics are judged by C04, not here."),
+    technique="TLA+ spec as layout/cell oracle; independent format implementation as projector; spec->code replay"),
+ "C04": dict(
+    level="model_checking",
+    text=("StatsExact of spec/ColumnWriter.tla (min/max = extreme non-null stored values of the chunk in the class's "
+          "order, absent if none or unordered; null_count = missing cells) is checked by TLC over the product and "
+          "compared, case by case, with the raw Statistics structs decoded by pqspec from the real files (order-"
+          "separating concrete values: unsigned straddling the sign bit, category order different from label order, "
+          "multi-byte text, tz-aware instants, inf) and with ParquetFile.statistics."),
+    design_ref="DESIGN.md section 5 C04, section 10",
+    note=("An in-band NaN/NaT of a REQUIRED column is not required in the bounds; a collapsed [None] list from "
+          "ParquetFile.statistics exposes nothing and is accepted; sorted_partitioned_columns is exercised only through "
+          "the statistics it reads."),
+    technique="TLA+ spec as statistics oracle + TLC enumeration; spec->code replay through an independent decoder"),
 }
 
 NOT_BUILT = "not built yet (construction order in DESIGN.md section 9)"
